@@ -492,7 +492,17 @@ func runStressB(t *testing.T, p *Plan) *Outcome {
 // traceFirstSeenStressed: the first event of se's trace at se's entry node arrived while that node was stressed.
 func traceFirstSeenStressed(evs []*stressEv, se *stressEv) bool {
 	for _, o := range evs {
-		if o.entry == se.entry && o.ev.traceID == se.ev.traceID {
+		if o.ev.traceID != se.ev.traceID {
+			continue
+		}
+		if o.entry != se.entry && o.owner == se.entry && o.op.At <= se.op.At {
+			// the node has seen this trace before through a peer: a span that entered
+			// elsewhere was forwarded to it as the owner. Whatever it decided then
+			// (sampler or stress rule) is remembered and is what later spans follow;
+			// the expectations for "first seen under stress" do not apply.
+			return false
+		}
+		if o.entry == se.entry {
 			return o.firstSeenStress
 		}
 	}
